@@ -71,6 +71,9 @@ type Case struct {
 	// Borrowed (good files only): node 0 is tabula.FromReader(r) on a reader the caller opened and closes itself;
 	// no extractor may close it, every operation can be repeated, and nothing else is ever opened
 	Borrowed bool   `json:"borrowed,omitempty"`
+	// Bad: 1-based page whose content stream cannot be read (it ends inside a string); 0 = none. Operations whose
+	// selection contains it are not judged (C02's business); every other selection is unaffected by it
+	Bad int `json:"bad,omitempty"`
 	Steps    []Step `json:"steps"`
 }
 
@@ -91,7 +94,9 @@ func (c Case) blank() map[int]bool {
 	return m
 }
 
-func buildPDF(n int, blank map[int]bool, twoCol ...int) []byte {
+func buildPDF(n int, blank map[int]bool, twoCol ...int) []byte { return buildPDFBad(n, blank, 0, twoCol...) }
+
+func buildPDFBad(n int, blank map[int]bool, bad int, twoCol ...int) []byte {
 	cols := map[int]bool{}
 	for _, p := range twoCol {
 		cols[p] = true
@@ -130,6 +135,9 @@ func buildPDF(n int, blank map[int]bool, twoCol ...int) []byte {
 		if p%2 == 1 {
 			// the page ends with the graphics state changed and not restored (legal: it ends with the page)
 			pg.Trailer = "1 0 0 1 13 -9 cm 3 Tc 80 Tz 17 TL"
+		}
+		if p == bad {
+			pg.Trailer = "(a string that is never closed"
 		}
 		doc.Pages = append(doc.Pages, pg)
 	}
@@ -477,7 +485,7 @@ func checkCase(c Case) error {
 	}
 	defer os.RemoveAll(dir)
 	blank := c.blank()
-	pdf := buildPDF(c.NPages, blank, c.TwoCol...)
+	pdf := buildPDFBad(c.NPages, blank, c.Bad, c.TwoCol...)
 	pageText := map[string]string{} // options + page -> Text() of that page alone
 	path := filepath.Join(dir, "doc.pdf")
 	switch c.File {
@@ -547,7 +555,9 @@ func checkCase(c Case) error {
 			cf := confs[st.Node]
 			if terminal(st.Op) {
 				session[st.Node] = false
-			} else if !got.Err && borrowed == nil {
+			} else if (!got.Err || c.Bad > 0) && borrowed == nil {
+				// (a non-terminal operation that fails on the unreadable page has opened the file all the same: the
+				// session is pending until a terminal operation or Close)
 				session[st.Node] = true
 			}
 			switch c.File {
@@ -572,6 +582,8 @@ func checkCase(c Case) error {
 						}
 					case cf.explicitEmpty():
 						// unspecified: all pages, nothing, or an error
+					case c.Bad > 0 && containsInt(sel, c.Bad):
+						// the selection holds the unreadable page: not judged here
 					default:
 						if got.Err {
 							return fmt.Errorf("%s: failed for the valid selection %v", where, sel)
@@ -719,6 +731,15 @@ func checkCase(c Case) error {
 	return nil
 }
 
+func containsInt(l []int, x int) bool {
+	for _, v := range l {
+		if v == x {
+			return true
+		}
+	}
+	return false
+}
+
 // ---- generator --------------------------------------------------------------------
 
 var opts = []string{"ExcludeHeaders", "ExcludeFooters", "ExcludeHeadersAndFooters", "JoinParagraphs", "ByColumn", "PreserveLayout"}
@@ -754,6 +775,9 @@ func genCase(t *rapid.T) Case {
 	c := Case{NPages: rapid.IntRange(1, 8).Draw(t, "npages")}
 	c.File = rapid.SampledFrom([]string{"ok", "ok", "ok", "ok", "ok", "ok", "missing", "truncated", "wrongext"}).Draw(t, "file")
 	c.Borrowed = c.File == "ok" && rapid.IntRange(0, 3).Draw(t, "borrowed") == 0
+	if c.File == "ok" && c.NPages >= 3 && rapid.IntRange(0, 4).Draw(t, "hasBadPage") == 0 {
+		c.Bad = rapid.IntRange(1, c.NPages-1).Draw(t, "badPage") // a later page remains to be selected
+	}
 	if c.NPages >= 2 && rapid.IntRange(0, 2).Draw(t, "hasBlank") == 0 {
 		for p := 1; p <= c.NPages; p++ {
 			if rapid.IntRange(0, 2).Draw(t, "blank") == 0 && len(c.Blank) < c.NPages-1 {
@@ -859,6 +883,9 @@ func meta(c Case) vr.Meta {
 	}
 	if c.Borrowed {
 		labels = append(labels, "from-reader")
+	}
+	if c.Bad > 0 {
+		labels = append(labels, "one-page-unreadable")
 	}
 	if len(c.Blank) > 0 {
 		labels = append(labels, "blank-pages")
